@@ -822,7 +822,15 @@ class Object(ObjectAliasMixin):
         # and current module is a regular module or package,
         # try to compute the path relative to the parent folder
         # of the package (search path).
-        return self.filepath.relative_to(package_path.parent.parent)
+        try:
+            return self.filepath.relative_to(package_path.parent.parent)
+        except ValueError:
+            # The module lives somewhere else than its package (a module that only exists in a stubs-only
+            # package found in another search path): keep as many trailing components as its dotted path has.
+            components = self.module.path.count(".") + 1
+            if self.filepath.stem == "__init__":
+                components += 1
+            return Path(*self.filepath.parts[-components:])
 
     @property
     def relative_filepath(self) -> Path:
